@@ -389,7 +389,7 @@ func authFirstViolation(results []string, authTag uint32, user, pw string) strin
 			}
 			seen[f[1]] = true
 			if strings.HasPrefix(f[2], "undecodable") {
-				continue // C06's business
+				return "the first frame on connection " + f[1] + " cannot be decoded by an independent peer (" + trunc(f[2], 60) + "): it is not the authentication request with the configured credentials"
 			}
 			if f[2] != want {
 				return "the first frame on connection " + f[1] + " is not the authentication request with the configured credentials: " + trunc(f[2], 120)
